@@ -10,7 +10,7 @@ import os
 import re
 
 from vf.extract import extract_item, ExtractError, REPO
-from vf.unit import Unit, arm_bounds
+from vf.unit import Unit, arm_bounds, pull_new_struct_fields
 from units.run19 import PRELUDE as RUN19_PRELUDE
 
 _a = RUN19_PRELUDE.index('// ---------------------------------------------------------------- specification vocabulary')
@@ -49,6 +49,7 @@ pub trait NonPrimitiveExecutor<F> { fn dummy(&self) -> bool; }
 pub mod ax {
     use super::*;
     pub broadcast axiom fn expr_id_key_model() ensures #[trigger] vstd::std_specs::hash::obeys_key_model::<ExprId>();
+    pub broadcast axiom fn witness_id_key_model() ensures #[trigger] vstd::std_specs::hash::obeys_key_model::<WitnessId>();
 }
 /// error variants used by the lowering functions under contract (message strings dropped: R8)
 pub enum CircuitBuilderError { MissingExprMapping { expr_id: ExprId }, Other }
@@ -76,6 +77,7 @@ pub struct LoweringState<'a, F> {
     pub public_rows: Vec<WitnessId>,
     pub private_input_rows: Vec<WitnessId>,
     pub public_mappings: HashMap<ExprId, WitnessId>,
+@@NEWFIELDS@@
 }
 } // verus!
 '''
@@ -222,9 +224,11 @@ def build():
     u.assume('the relation of a primitive op over the witness table is op_done/alu_holds, shared verbatim with unit run19 where the runner is proved to establish it')
     u.assume('ConnectDsu::alloc_witness returns some slot and logs (expr, slot) (its sharing contract is proved in unit dsu); npo emitters are outside this unit')
     u.assume('diagnostic context strings (format!) dropped (R8); hashbrown maps treated as std (R7)')
-    u.text(PRELUDE.replace('@@TYPES@@', types_from_repo()))
+    newf = pull_new_struct_fields(u, 'circuit/src/builder/compiler/lowerer/state.rs', 'LoweringState',
+                                  known=('graph', 'dsu', 'witness_alloc', 'ops', 'expr_to_widx', 'public_rows', 'private_input_rows', 'public_mappings', 'op_id_to_output_exprs', 'emitted_npo_ops'))
+    u.text(PRELUDE.replace('@@TYPES@@', types_from_repo()).replace('@@NEWFIELDS@@', newf))
     u.text('verus! {\n' + OP_SEM + '\n}')
-    u.text('verus! { broadcast use {ax::expr_id_key_model, vstd::std_specs::hash::group_hash_axioms}; }')
+    u.text('verus! { broadcast use {ax::expr_id_key_model, ax::witness_id_key_model, vstd::std_specs::hash::group_hash_axioms}; }')
     u.text(SPEC)
 
     # ---- Op constructors (real text): what each convenience constructor builds
